@@ -34,6 +34,14 @@ func init() {
 		rcounts: []uint8{0}, maxDelayMs: 3, memOnly: true, forceFastKeys: 1}
 	addKind("keyrace", race, map[string]int{"C01": 6, "C02": 2, "C03": 3, "C17": 3})
 
+	// keyrace-values: the same collisions (every key shares the one fast slot, so all but one live in the key
+	// map), more keys than clients, values on a third of the requests: keys drain by expiry and unlock and
+	// new keys are created on the managers they leave behind
+	racev := race
+	racev.profile, racev.pData, racev.nKeys, racev.maxDelayMs = "keyrace-values", 350, [2]int{3, 7}, 400
+	racev.expireds = []uint16{1, 1, 2, 3}
+	addKind("keyrace-values", racev, map[string]int{"C17": 3})
+
 	// uniform: every user of a key passes the same Count c (0..3): never more than c+1 holds
 	uni := base
 	uni.profile, uni.uniformCount = "uniform-count", true
@@ -161,6 +169,13 @@ func init() {
 			Weight int
 		}{"tickrace", 1})
 	}
+
+	// keyreuse: see genKeyReuse
+	kinds["keyreuse"] = &kindFn{gen: genKeyReuse, run: runCore}
+	propKinds["C17"] = append(propKinds["C17"], struct {
+		Kind   string
+		Weight int
+	}{"keyreuse", 2})
 
 	// longholes: see genLongHoles
 	kinds["longholes"] = &kindFn{gen: genLongHoles, run: runCore}
